@@ -203,9 +203,12 @@ def p_dbg(pool, depth):
     return f
 
 
+REPOTESTS = {'kind': 'repotests', 'name': 'repotests'}
+
+
 def p_c01(q):
     if q:
-        return [mc_router('T'), gen_bfs('A', 2, sample=0.35), gen_bfs('B', 1), gen_sim('A', 8, 12), gogen('bytes', 60)]
+        return [mc_router('T'), REPOTESTS, gen_bfs('A', 2, sample=0.35), gen_bfs('B', 1), gen_sim('A', 8, 12), gogen('bytes', 60)]
     return [mc_router('T'), mc_router('M', 'routerM'), gen_bfs('A', 2), gen_bfs('B', 2), gen_bfs('C', 2), gen_bfs('X', 2, sample=0.3),
             gen_sim('A', 12, 60), gen_sim('B', 12, 40, seedoff=1), gogen('bytes', 1500), gogen('mixed', 800, seedoff=1)]
 
@@ -213,7 +216,7 @@ def p_c01(q):
 def p_c02(q):
     if q:
         return [mc_router('T'), gen_bfs('O', 4, module='MC_RouterO', consts={'L': 4}, sample=0.2), gen_bfs('O', 3, name='bfsO3', module='MC_RouterO', consts={'L': 4}), gogen('addonly', 80)]
-    return [mc_router('T'), gen_bfs('O', 4, module='MC_RouterO', consts={'L': 5}), gen_bfs('O', 2, name='bfsO2L6', module='MC_RouterO', consts={'L': 6}),
+    return [mc_router('T'), REPOTESTS, gen_bfs('O', 4, module='MC_RouterO', consts={'L': 5}), gen_bfs('O', 2, name='bfsO2L6', module='MC_RouterO', consts={'L': 6}),
             gogen('addonly', 2000)]
 
 
@@ -221,13 +224,13 @@ def p_c03(q):
     if q:
         return [mc_router('T'), gen_bfs('B', 2, sample=0.2), gen_bfs('C', 2, sample=0.4), gen_bfs('X', 2, sample=0.05), gen_bfs('R', 5), gen_bfs('A', 2, sample=0.15),
                 gen_bfs('Y', 3, link=True), gen_bfs('FC', 3, module='MC_RouterF'), gen_sim('B', 8, 10), gogen('mixed', 40)]
-    return [mc_router('T'), mc_router('M', 'routerM'), gen_bfs('A', 2), gen_bfs('B', 2), gen_bfs('C', 2), gen_bfs('X', 2, sample=0.3), gen_bfs('R', 6), gen_bfs('Y', 3, link=True), gen_bfs('FC', 3, module='MC_RouterF'),
+    return [mc_router('T'), mc_router('M', 'routerM'), REPOTESTS, gen_bfs('A', 2), gen_bfs('B', 2), gen_bfs('C', 2), gen_bfs('X', 2, sample=0.3), gen_bfs('R', 6), gen_bfs('Y', 3, link=True), gen_bfs('FC', 3, module='MC_RouterF'),
             gen_sim('A', 14, 60), gen_sim('B', 14, 60, seedoff=1), gen_sim('C', 14, 40, seedoff=2), gogen('mixed', 1500)]
 
 
 def p_c04(q):
     if q:
-        return [mc_router('T'), gen_bfs('C', 2), gen_bfs('X', 2, sample=0.08), gen_sim('C', 8, 10)]
+        return [mc_router('T'), REPOTESTS, gen_bfs('C', 2), gen_bfs('X', 2, sample=0.08), gen_sim('C', 8, 10)]
     return [mc_router('T'), mc_router('M', 'routerM'), gen_bfs('C', 3, sample=0.4), gen_bfs('X', 2, sample=0.4), gen_bfs('A', 2, sample=0.5),
             gen_sim('C', 14, 80), gogen('mixed', 1000)]
 
